@@ -374,6 +374,10 @@ impl World {
         let mut tags = vec![];
         let cfg = gen_config(rng, &mag, &mut tags);
         let mut m = Mkt::with_config(cfg);
+        // The program initialises every clock when the market is created.
+        for k in [ClockKind::PriceImpactDistribution, ClockKind::Borrowing, ClockKind::Funding] {
+            m.clocks.insert(k, m.now);
+        }
         if rng.chance(1, 4) {
             tags.push("vi_swaps");
             m.vi_swaps = Some(MonPool {
